@@ -6,6 +6,7 @@ import (
 	"os"
 	"path/filepath"
 	"runtime/debug"
+	"time"
 )
 
 type areaFunc func(r *Rng, n int, dir string) (*AreaOut, error)
@@ -18,6 +19,9 @@ func main() {
 		os.Exit(2)
 	}
 	area := os.Args[1]
+	// the process runs in a non-UTC local time zone, as most deployments do: everything that names or compares
+	// instants (snapshot names, metadata, cutoffs) must not depend on it
+	time.Local = time.FixedZone("verif+0230", 9000)
 	fs := flag.NewFlagSet(area, flag.ExitOnError)
 	seed := fs.Uint64("seed", 1, "PRNG seed")
 	n := fs.Int("n", 300, "number of cases")
